@@ -201,6 +201,10 @@ def init_oracle(rng, tier, reasons):
 UNITS = [
     flow.Unit('constructor-guards', groups=['inits'], props=['props/C20_init.v'], custom_corr=init_corr, oracle=init_oracle),
     flow.Unit('definedness', groups=['noh', 'noh2', 'cog1', 'cog19'], props=['props/C20_defined.v']),
+    flow.Unit('documented-restrictions-real-code', groups=[], props=[], oracle=lambda rng, tier, reasons: __import__('restrict_oracle').oracle(rng, tier, reasons),
+              always_oracle=True,
+              note='classes whose guards are outside the translated subset: Kenamond2 constructor against its documented restrictions (incl. the ordering of detonation '
+                   'times with t_d[2] != 0), EP piston time-domain guard (raise iff the elastic wave has left the grid), NaN at t <= 0 for Sedov, Mader, Su-Olson'),
 ]
 
 
